@@ -18,7 +18,7 @@ fn lock_name(ty: &str) -> &'static str {
     }
 }
 
-pub const STATES: &[&str] = &["empty", "init", "midblock", "parked", "uncommitted"];
+pub const STATES: &[&str] = &["empty", "init", "midblock", "parked", "uncommitted", "expired"];
 
 /// Brings a fresh instance into the named state; returns the context for well-formed requests.
 pub fn build_state(p: &mut Player, state: &str) -> Ctx {
@@ -33,13 +33,17 @@ pub fn build_state(p: &mut Player, state: &str) -> Ctx {
         steps.push(json!({"op": "finalise", "ts": 101, "hash": "h1", "count": 3}));
         steps.push(json!({"op": "commit"}));
     }
-    if state == "uncommitted" || state == "parked" || state == "midblock" {
+    if state == "uncommitted" || state == "parked" || state == "midblock" || state == "expired" {
         steps.push(json!({"op": "tx", "via": "call", "from": "s1", "to": "c_s1_0", "ops": cell_ops, "insc": "id", "idx": 0, "hash": "h2", "ts": 102, "gas": "ample", "txid": "x3"}));
         steps.push(json!({"op": "finalise", "ts": 102, "hash": "h2", "count": 1}));
     }
-    if state == "parked" {
+    if state == "parked" || state == "expired" {
         steps.push(json!({"op": "transact", "signer": "k1", "nonce": 1, "to": "c_s1_0", "ops": cell_ops, "chain": "own", "insc": "ie", "idx": 0, "hash": "h3", "ts": 103, "txid": "x4"}));
         steps.push(json!({"op": "transact", "signer": "k1", "nonce": 2, "to": "c_s1_0", "ops": cell_ops, "chain": "own", "insc": "if", "idx": 0, "hash": "h3", "ts": 103, "txid": "x5"}));
+    }
+    if state == "expired" {
+        // the entries parked while block 3 was next are still listed but too old to run when block 13 is next
+        steps.push(json!({"op": "mine", "k": 10, "ts": 104}));
     }
     if state == "midblock" {
         steps.push(json!({"op": "tx", "via": "call", "from": "s1", "to": "c_s1_0", "ops": cell_ops, "insc": "ig", "idx": 0, "hash": "h3", "ts": 103, "gas": "ample", "txid": "x6"}));
@@ -64,7 +68,7 @@ pub fn build_state(p: &mut Player, state: &str) -> Ctx {
             }
         }
         ctx.block_hash = format!("{:#x}", names::hash_of_token("h1", 0));
-        ctx.height = if state == "init" { 1 } else { 2 };
+        ctx.height = if state == "init" { 1 } else if state == "expired" { 12 } else { 2 };
         ctx.next_hash = format!("{:#x}", names::hash_of_token("h3", 0));
         ctx.next_ts = 103;
         ctx.next_idx = if state == "midblock" { 1 } else { 0 };
@@ -123,7 +127,7 @@ pub fn record(out_path: &str, only_state: Option<&str>) -> i32 {
             // all on this instance; a mutating method gets the "absent"/"null" classes only
             let mutating = methods::MUTATING.contains(&method.as_str());
             // (mid-block every simulation waits 5 s for the block to end and fails without touching a lock: base variant only)
-            let with_classes = *state != "midblock";
+            let with_classes = *state != "midblock" && *state != "expired";
             for (pi, (_, ty)) in crate::surface::schema(method).iter().enumerate() {
                 if !with_classes {
                     break;
@@ -140,18 +144,32 @@ pub fn record(out_path: &str, only_state: Option<&str>) -> i32 {
                     }
                 }
             }
+            p.inst.timeout = std::time::Duration::from_secs(25);
             for (vi, params) in variants.into_iter().enumerate() {
                 brc20_prog::verif::lock_trace_start(None);
                 let _ = brc20_prog::verif::lock_trace_take();
                 let r = p.inst.call(method, params);
                 let evs = brc20_prog::verif::lock_trace_stop();
-                let prog: Vec<Value> = evs
+                let hung = matches!(r, crate::inst::Outcome::Timeout);
+                let mut prog: Vec<Value> = evs
                     .iter()
                     .filter(|e| !e.kind.starts_with("Req"))
                     .map(|e| json!([e.kind, lock_name(e.lock)]))
                     .collect();
+                if hung {
+                    // the handler never came back: what it was waiting for is its last request without an acquisition;
+                    // the program ends there, holding what it holds (Locks.tla then finds the thread stuck on its own)
+                    if let Some(last) = evs.last() {
+                        if last.kind.starts_with("Req") {
+                            prog.push(json!([last.kind.replace("Req", "Acq"), lock_name(last.lock)]));
+                        }
+                    }
+                }
                 let locs: Vec<String> = evs.iter().filter(|e| e.kind.starts_with("Acq")).map(|e| e.loc.replace("/repo/", "")).collect();
-                rows.push(json!({"state": state, "method": method, "variant": vi, "res": r.res(), "program": prog, "locs": locs}));
+                rows.push(json!({"state": state, "method": method, "variant": vi, "res": r.res(), "program": prog, "locs": locs, "hung": hung}));
+                if hung {
+                    break; // this instance is wedged now
+                }
             }
             p.inst.close();
         }
